@@ -881,7 +881,10 @@ func decodeLinkLayerDiscovery(data []byte, p gopacket.PacketBuilder) error {
 			if err := checkLLDPTLVLen(v, 9); err != nil {
 				return err
 			}
-			mlen := v.Value[0]
+			mlen := int(v.Value[0])
+			if mlen < 1 {
+				return errors.New("Malformed LinkLayerDiscovery MgmtAddress TLV")
+			}
 			if err := checkLLDPTLVLen(v, int(mlen+7)); err != nil {
 				return err
 			}
@@ -889,7 +892,7 @@ func decodeLinkLayerDiscovery(data []byte, p gopacket.PacketBuilder) error {
 			info.MgmtAddress.Address = v.Value[2 : mlen+1]
 			info.MgmtAddress.InterfaceSubtype = LLDPInterfaceSubtype(v.Value[mlen+1])
 			info.MgmtAddress.InterfaceNumber = binary.BigEndian.Uint32(v.Value[mlen+2 : mlen+6])
-			olen := v.Value[mlen+6]
+			olen := int(v.Value[mlen+6])
 			if err := checkLLDPTLVLen(v, int(mlen+7+olen)); err != nil {
 				return err
 			}
